@@ -12,6 +12,7 @@ from vf.mon import sched
 from vf.props import common as K
 from vf.props import c09
 from vf.props.c13 import GateFactory
+from vf.ref7z import writer as W
 
 LEVEL = "exploration"
 CASE_TIMEOUT = 900
@@ -23,8 +24,8 @@ RULE = ("archives of C09/C13 (single/multi-folder, directories, empty files) x e
         "event start_preparation, last postprocess; every member that receives events gets exactly one start then one end with its name; end byte count == member "
         "size; sum(update) == bytes decoded for delivered non-empty members; every delivered member is among the reported; nothing stamped after close() returned; "
         "reporter thread dead after close(); close() does not raise. Histories on one object: two extractions with different callbacks, an extraction without "
-        "callback before/after one with, a handler blocking 60 ms per event (the queue outlasts one second), mp=True: every callback gets one complete account of its "
-        "own extraction and nothing else. Cell = (archive shape, call, open mode, sink, handler, distinct schedule).")
+        "callback before/after one with, a handler blocking 60 ms per event (the queue outlasts one second), mp=True, an extraction whose handler raises (at preparation / n-th start / end / update) followed by one with a sound handler: every callback gets one complete account of its "
+        "own extraction and nothing else. The command line's own handler: 'py7zr x --verbose' on 40..3000 members (also archives without any data) with its output a pipe nobody reads for 2 s: one line per member of every reported kind before the command ends, no traceback. Cell = (archive shape, call, open mode, sink, handler, distinct schedule).")
 ASSUMPTIONS = ["'processed' is defined by observation: the members that receive at least one event"]
 
 
@@ -43,7 +44,87 @@ def cases(rng, tier):
         out.append({"kind": "history", "shape": ["two-callbacks", "nocb-then-cb", "cb-then-nocb", "slow-handler", "mp"][i % 5],
                     "members": [[n_, k, (b or b"").hex()] for n_, k, b in mem], "folders": nf if i % 5 != 4 else max(2, nf), "writer": rng.choice(["ref", "py"]),
                     "chain": rng.choice(["LZMA2", "COPY"]), "seed": rng.getrandbits(32), "open": rng.choice(["path", "stream"]), "block": None, "chunk": None})
+    # a callback that raises, then a sound one on the same object; the command line's own callback ('x --verbose') behind a slow pipe
+    for i in range(6 if tier == "quick" else 60):
+        mem, nf = c09._gen_archive(rng, 6)
+        out.append({"kind": "history", "shape": "raising-then-cb", "raise_at": rng.choice(["pre", "start", "end", "update"]), "raise_nth": rng.randint(0, 2),
+                    "members": [[n_, k, (b or b"").hex()] for n_, k, b in mem], "folders": nf, "writer": rng.choice(["ref", "py"]),
+                    "chain": rng.choice(["LZMA2", "COPY"]), "seed": rng.getrandbits(32), "open": rng.choice(["path", "stream"]), "block": None, "chunk": None})
+    for i in range(3 if tier == "quick" else 12):
+        out.append({"kind": "cli", "members": [1500, 3000, 40][i % 3], "size": [1, 0, 0][i % 3] if i < 3 else rng.choice([0, 1, 7]), "dirs": i % 2, "seed": rng.getrandbits(32)})
     return out
+
+
+def _run_cli(case):
+    """'py7zr x --verbose': the command line's own callback prints one line per member. Its standard output is a pipe nobody
+    reads for a while (a slow terminal): every member must still be reported before the command ends, and an archive without
+    any data must not kill the reporter."""
+    import subprocess
+    import sys
+
+    obs = {k: 0 for k in REQUIRED_OBS}
+    viol = []
+    n = case["members"]
+    members = []
+    for i in range(n):
+        if case["dirs"] and i % 50 == 0:
+            members.append({"name": "dir%04d" % i, "kind": "dir", "attributes": 0x10 | 0x8000 | (0o040755 << 16), "mtime": 132000000000000000 + i})
+        elif case["size"] == 0:
+            members.append({"name": "member-%05d.txt" % i, "kind": "emptyfile", "attributes": 0x20 | 0x8000 | (0o100644 << 16), "mtime": 132000000000000000 + i})
+        else:
+            members.append({"name": "member-%05d.txt" % i, "kind": "file", "data": bytes([65 + i % 26]) * case["size"], "attributes": 0x20 | 0x8000 | (0o100644 << 16), "mtime": 132000000000000000 + i})
+    ns = sum(1 for m in members if m["kind"] == "file")
+    data = W.build(members, {"folders": [{"n": ns, "chain": [{"m": "COPY"}], "crc": "sub"}] if ns else [], "header": "lzma+crc"})
+    with pz.scratch("vf-c18c-") as d:
+        with open(os.path.join(d, "a.7z"), "wb") as f:
+            f.write(data)
+        env = dict(os.environ)
+        root = os.environ.get("VERIF_REPO")
+        if root:
+            env["PYTHONPATH"] = root + os.pathsep + env.get("PYTHONPATH", "")
+        env["COLUMNS"] = "100"
+        p = subprocess.Popen([sys.executable, "-m", "py7zr", "x", "--verbose", "a.7z", "out"], cwd=d, stdout=subprocess.PIPE, stderr=subprocess.PIPE, env=env, stdin=subprocess.DEVNULL)
+        # nobody reads for a while: the pipe (64 KiB) is full long before the last member's line is written
+        time.sleep(2.0 if n > 1000 else 0.3)
+        try:
+            so, se = p.communicate(timeout=120)
+        except subprocess.TimeoutExpired:
+            p.kill()
+            p.communicate()
+            return K.result("inconclusive", key="cli-timeout", what="py7zr x --verbose did not end within 120 s")
+        so, se = so.decode("utf-8", "replace"), se.decode("utf-8", "replace")
+        obs["runs"] = 1
+        obs["cli_runs"] = 1
+        tag = "py7zr x --verbose on %d members (%d bytes each%s), standard output a pipe read late" % (n, case["size"], ", some directories" if case["dirs"] else "")
+        if p.returncode != 0:
+            viol.append({"key": "cli/x-verbose-fails/rc=%s" % p.returncode, "what": "%s: exit %s: %s" % (tag, p.returncode, (so + se)[-200:])})
+        else:
+            got = pz.walk_tree(os.path.join(d, "out")) if os.path.isdir(os.path.join(d, "out")) else {}
+            if len(got) != n:
+                viol.append({"key": "cli/x-verbose-extracts-part", "what": "%s: %d of %d members on disk" % (tag, len(got), n)})
+            lines = [ln for ln in (so + "\n" + se).split("\n") if ln.startswith("- ")]  # the progress lines go to standard error
+            reported = {ln[2:].split(" ")[0] for ln in lines}
+            obs["callback_events"] = len(lines)
+            obs["members_paired"] = len(reported)
+            want = {m["name"] for m in members}
+            # 'processed' by observation: the members that receive a line; whatever class gets one for some member gets one for all
+            kinds_reported = {m["kind"] for m in members if m["name"] in reported}
+            missing = sorted(m["name"] for m in members if m["kind"] in kinds_reported and m["name"] not in reported)
+            if not reported and any(m["kind"] != "dir" for m in members):
+                viol.append({"key": "cli/x-verbose-reports-nothing", "what": "%s: no member line in the output (%r)" % (tag, (so + se)[-200:])})
+            elif missing:
+                viol.append({"key": "cli/x-verbose-members-unreported", "what": "%s: exit 0, %d of %d members of the reported kinds have no line (first %r); all %d are on disk" % (
+                    tag, len(missing), len(missing) + len(reported), missing[:2], len(got))})
+            if reported - want:
+                viol.append({"key": "cli/x-verbose-unknown-member", "what": "%s: lines for %r" % (tag, sorted(reported - want)[:3])})
+            if "Traceback" in se or "Traceback" in so:
+                viol.append({"key": "cli/x-verbose-traceback", "what": "%s: a traceback is printed: %s" % (tag, (se or so).strip().splitlines()[-1][:200])})
+        obs["schedules_controlled"] = 0
+    cell = "cli|x-verbose|n%d|size%d|%s" % (n, case["size"], "dirs" if case["dirs"] else "-")
+    sample = {"cli": "x --verbose", "members": n, "lines": obs.get("callback_events", 0)}
+    if viol:
+        return K.result("violated", violations=viol, cells=[cell], obs=obs, sample=sample)
+    return K.result("held", cells=[cell], obs=obs, sample=sample)
 
 
 def _make_callback(log, lock, block_ms, gated):
@@ -77,6 +158,40 @@ def _make_callback(log, lock, block_ms, gated):
             self._ev("post")
 
     return Rec()
+
+
+def _raising_callback(at, nth):
+    import py7zr
+
+    class Boom(py7zr.callbacks.ExtractCallback):
+        def __init__(self):
+            self.n = 0
+
+        def _ev(self, kind):
+            if kind == at:
+                self.n += 1
+                if self.n > nth:
+                    raise RuntimeError("handler fails at %s #%d" % (kind, self.n))
+
+        def report_start_preparation(self):
+            self._ev("pre")
+
+        def report_start(self, processing_file_path, processing_bytes):
+            self._ev("start")
+
+        def report_update(self, decompressed_bytes):
+            self._ev("update")
+
+        def report_end(self, processing_file_path, wrote_bytes):
+            self._ev("end")
+
+        def report_warning(self, message):
+            pass
+
+        def report_postprocess(self):
+            pass
+
+    return Boom()
 
 
 def check_log(log, close_ret_ns, sizes, delivered, tag):
@@ -182,6 +297,13 @@ def _run_history(case):
                     z.extractall(factory=pz.CollectFactory())
                 elif shape == "slow-handler":
                     z.extractall(callback=cbs[0], factory=pz.CollectFactory())
+                elif shape == "raising-then-cb":
+                    try:
+                        z.extractall(callback=_raising_callback(case["raise_at"], case["raise_nth"]), factory=pz.CollectFactory())
+                    except Exception:
+                        pass  # whether the handler's exception reaches the caller is not this property's business
+                    z.reset()
+                    z.extractall(callback=cbs[1], factory=pz.CollectFactory())
                 else:
                     z.extractall(path=os.path.join(d, "out"), callback=cbs[0])
         except WK.CpuBudget:
@@ -207,7 +329,7 @@ def _run_history(case):
                 viol.append({"key": "close-raises/%s" % type(close_err).__name__, "what": "%s: close() raised %s with %d events delivered" % (tag, pz.exc_sig(close_err), obs["callback_events"])})
             if rep is not None and rep.is_alive():
                 viol.append({"key": "reporter-alive-after-close", "what": "%s: reporter thread still alive after close()" % tag})
-            used = {"two-callbacks": (0, 1), "nocb-then-cb": (1,), "cb-then-nocb": (0,), "slow-handler": (0,), "mp": (0,)}[shape]
+            used = {"two-callbacks": (0, 1), "nocb-then-cb": (1,), "cb-then-nocb": (0,), "slow-handler": (0,), "mp": (0,), "raising-then-cb": (1,)}[shape]
             for i in used:
                 for code, text in check_log(list(logs[i][0]), close_ret, sizes, delivered, "%s, callback %d" % (tag, i + 1)):
                     viol.append({"key": "log/%s/history-%s" % (code, shape), "what": text})
@@ -231,6 +353,8 @@ def run_case(case):
 
     from vf.core import worker as WK
 
+    if case.get("kind") == "cli":
+        return _run_cli(case)
     if case.get("kind") == "history":
         return _run_history(case)
     viol = []
